@@ -832,6 +832,8 @@ tc_generate(const char *path, int kind, tc_mut m)
             VSfdefine(vs, "xyz", DFNT_FLOAT32, 3);
             VSfdefine(vs, "tag", DFNT_CHAR8, 4);
             VSsetfields(vs, "id,xyz,tag");
+            if (k == 1)
+                VSsetinterlace(vs, NO_INTERLACE); /* stored field by field; the buffer below is still record by record */
             int   nrec = 5 + 20 * k, rsz = 4 + 12 + 4;
             uint8 *buf = calloc(1, (size_t)(nrec * rsz) + 8);
             for (int i = 0; i < nrec; i++) {
